@@ -57,7 +57,7 @@ class Element:
 
         :return: True iif the value of Element object is an int or a str that can be converted to int
         """
-        return self._type == int or self._value.isdigit()
+        return self._type == int or self._value.isdecimal()
 
     def __eq__(self, other: Union['Element', str, int]) -> bool:
         """
